@@ -179,8 +179,11 @@ def explore(res, tier, seed, model_ok=True):
             evs = events(real)
             perr = [e for e in evs if e.startswith('E:protocol_error')]
             delivered_after = any('4146544552' in e for e in evs)
+            # the prefix of these streams completes no message: ANY message event would carry content of the violating frame or of what follows it
+            delivered_any = [e for e in evs if e.split(':')[1] in ('text', 'binary', 'ping', 'pong', 'closing', 'closed')]
+            closes_written = sum(1 for t in real.split(' ') if t.startswith('W:88'))
             if spec == 'violation':
-                if len(perr) != 1 or delivered_after or not evs[-1].startswith('E:disconnected') or not evs[-1].endswith(':0'):
+                if len(perr) != 1 or delivered_after or delivered_any or closes_written > 1 or not evs[-1].startswith('E:disconnected') or not evs[-1].endswith(':0'):
                     res.failures.append(dict(cls='oversize-control' if (b0 & 0x0f) >= 8 and (b1 & 0x7f) > 125 and header_verdict(b0, b1 & 0x80 | 5, sname, defl) != 'violation' else 'header-class',
                                              what='header %02x %02x in state %s is a violation but was not handled as one' % (b0, b1, sname),
                                              input=line[:3000], scenario=js, observed=[e[:80] for e in evs[-5:]]))
@@ -237,6 +240,10 @@ def header_verdict(b0, b1, state, deflate):
         return 'violation'
     if op in (1, 2) and mid:
         return 'violation'
+    if rsv1 and deflate and (op >= 8 or op == 0):
+        # RFC 7692 6.1: RSV1 belongs on the first frame of a data message only.  Property C04 lists "a reserved bit without a
+        # negotiated extension", so either behaviour satisfies it (lomond accepts these frames; a stricter client may refuse them)
+        return 'either'
     return 'ok'
 
 
